@@ -209,8 +209,10 @@ func (s *checkpoint) StartSchedule() {
 		return
 	}
 
+	// (set before the goroutine is started: a StopSchedule() that runs before the goroutine gets going must win)
+	s.running = true
+
 	go func() {
-		s.running = true
 		for s.running {
 			time.Sleep(s.config.Checkpoint.Interval)
 			s.Save()
